@@ -2,6 +2,9 @@ module verifharness
 
 go 1.16
 
-require github.com/goatcms/goatcore v0.0.0
+require (
+	github.com/goatcms/goatcore v0.0.0
+	golang.org/x/crypto v0.0.0-20210415154028-4f45737414dc
+)
 
 replace github.com/goatcms/goatcore => /repo
